@@ -440,8 +440,6 @@ class Run:
             # nothing was proved in this run (build / factgen / theorem failure): do not present proof-level keys
             cov["obligations_attempted"] = cov.pop("obligations")
             cov["obligations_discharged"] = cov.pop("discharged")
-            cov["evaluations"] = max(1, cov["evaluations"])
-            cov["distinct_nontrivial"] = max(2, cov["distinct_nontrivial"]) if cov["evaluations"] >= 2 else cov["distinct_nontrivial"]
         cov.update(self.extra)
         if level_extra:
             cov.update(level_extra)
